@@ -10,7 +10,7 @@ import itertools
 
 from rdv import absint
 from rdv.absint import Cell, Interp, Unsupported, mk_option
-from rdv.core import CheckBroken, Origins, call_matches, norm_path, strip_generics, term_has, term_str
+from rdv.core import CheckBroken, Origins, call_matches, callee_res, norm_path, strip_generics, term_has, term_str
 
 CONFIGS = ['default']
 LEVEL = 'proof'
@@ -426,6 +426,8 @@ def run(rep, facts, tier):
     # ------------------------------------------------------------ R10.5 both sides decide on the same QoS
     rule_10_5(rep, fx)
 
+    rule_10_7(rep, fx)
+
     # ------------------------------------------------------------ R10.6 crossed roles (shared lint, rdv/swaplint.py)
     from rdv import swaplint
     swaplint.run_rule(rep, facts['default'], 'R10.6', ['dds::qos', 'rtps::reader::Reader::update_writer_proxy', 'rtps::writer::Writer::update_reader_proxy', 'rtps::dp_event_loop'])
@@ -456,3 +458,65 @@ def rule_10_5(rep, fx):
         rep.check(ok, 'R10.5', 'QosPolicies/%s' % pid, 'announced on presence, read back as %s' % (ds[0]['ty'] if ds else '?'),
                   '%s does not travel unchanged through the SEDP announcement (%s): the remote side evaluates the request/offered rule on a different value than the local side, '
                   'the two verdicts differ and an incompatible pair is matched on one side' % (pid, why), (es[0]['where'] if es else ser[0].where()))
+
+
+def rule_10_7(rep, fx):
+    """What is compared (and announced) is the endpoint's effective QoS: defaults, overridden by the topic's QoS, overridden by the explicit QoS."""
+    rep.rule('R10.7', 'effective QoS: QosPolicies::modify_by(self, other) takes every field from `other` when present, else from `self` (field f from field f on both sides); both endpoint '
+                      'constructors compute default.modify_by(topic QoS).modify_by(explicit QoS or none), and that one value goes to the RTPS endpoint (which does the comparison) and to the '
+                      'DataWriter/DataReader (whose QoS discovery announces)')
+    b = fx.find('dds::qos::QosPolicies::modify_by')
+    rep.analysed(b)
+    og = Origins(b)
+    bad = []
+    n_f = 0
+    for bb, si, st in b.statements():
+        if st['s'] == 'assign' and st['rv']['r'] == 'agg' and strip_generics(str(st['rv'].get('adt'))).endswith('QosPolicies'):
+            for f, o in zip(st['rv']['fields'], st['rv']['ops']):
+                n_f += 1
+                t = og.of_operand(o, bb, si)
+                ok = t[0] == 'call' and t[1].endswith('Option::or') and len(t[2]) == 2 and \
+                    term_has(t[2][0], lambda x: x == ('field', f, ('param', 2))) and term_has(t[2][1], lambda x: x == ('field', f, ('param', 1))) and \
+                    not term_has(t[2][0], lambda x: x[0] == 'field' and x[2] == ('param', 1)) and not term_has(t[2][1], lambda x: x[0] == 'field' and x[2] == ('param', 2))
+                if not ok:
+                    bad.append('%s = %s' % (f, term_str(t)[:70]))
+    rep.check(not bad and n_f >= 12, 'R10.7', 'modify_by/fields', '%d fields: other.f.or(self.f)' % n_f,
+              'QosPolicies::modify_by does not take every policy from `other` when set and from `self` otherwise (%s): the endpoint\'s effective QoS differs from what the application '
+              'configured, so the match decision is taken on other values' % '; '.join(bad[:3]), b.where())
+    for nm, base in (('dds::pubsub::InnerPublisher::create_datawriter', 'default_datawriter_qos'), ('dds::pubsub::InnerSubscriber::create_simple_datareader_internal', 'qos')):
+        c = fx.find(nm)
+        rep.analysed(c)
+        ogc = Origins(c)
+        chain = None
+        for bb, t in c.calls():
+            if callee_res(t).endswith('QosPolicies::modify_by'):
+                v = ogc._call(t, bb, 0)
+                if v[2][0][0] == 'call' and v[2][0][1].endswith('QosPolicies::modify_by'):
+                    chain = v
+        okc = False
+        why = 'no default.modify_by(..).modify_by(..) chain'
+        if chain is not None:
+            inner = chain[2][0]
+            okc = term_has(inner[2][0], lambda x: x[0] == 'field' and x[1] == base and x[2] == ('param', 1)) and \
+                term_has(inner[2][1], lambda x: x[0] == 'call' and x[1].endswith('::qos')) and \
+                term_has(chain[2][1], lambda x: x[0] == 'call' and x[1].endswith('unwrap_or_else'))
+            why = term_str(chain)[:120]
+        short = nm.rsplit('::', 1)[-1]
+        rep.check(okc, 'R10.7', '%s/precedence' % short, 'self.%s.modify_by(topic.qos()).modify_by(explicit or none)' % base,
+                  '%s does not assemble the effective QoS as defaults < topic < explicit (%s)' % (short, why), c.where())
+        # the same value reaches the RTPS endpoint ingredients and the DataWriter / DataReader object
+        uses = 0
+        for bb, si, st in c.statements():
+            if st['s'] == 'assign' and st['rv']['r'] == 'agg' and st['rv'].get('kind') == 'adt' and st['rv'].get('fields'):
+                for f, o in zip(st['rv']['fields'], st['rv']['ops']):
+                    if 'qos' in str(f):
+                        t = ogc.of_operand(o, bb, si)
+                        if term_has(t, lambda x: x[0] == 'call' and x[1].endswith('QosPolicies::modify_by')):
+                            uses += 1
+        for bb, t in c.calls():
+            r = callee_res(t)
+            if r.endswith(('DataWriter::<D, SA>::new', 'SimpleDataReader::<D, DA>::new', 'DataWriter::new', 'SimpleDataReader::new')):
+                if any(term_has(ogc.of_operand(a, bb, 'term'), lambda x: x[0] == 'call' and x[1].endswith('QosPolicies::modify_by')) for a in t['args']):
+                    uses += 1
+        rep.check(uses >= 2, 'R10.7', '%s/one-value' % short, 'the effective QoS reaches the RTPS endpoint and the DDS object (%d uses)' % uses,
+                  '%s does not hand the same effective QoS to the RTPS endpoint (comparison) and to the DDS object (announcement): the two sides can reach different verdicts' % short, c.where())
